@@ -5,6 +5,7 @@ import MosnVerif.Lemmas.H2GoAway
 import MosnVerif.Lemmas.ShutdownVirtual
 import MosnVerif.Lemmas.TransferLookup
 import MosnVerif.Lemmas.UpgTiming
+import MosnVerif.Lemmas.HandoverQueue
 /-!
 # C11 — graceful shutdown and hot upgrade lose no requests (property theorems only; level `other`)
 
@@ -482,5 +483,38 @@ theorem default_schedule_misses_exit (g : Nat) (hg : g < 15000) :
 example : fits defaultTransferTimeoutMs 5000 defaultConnReadTimeoutMs = false := by decide
 
 end UpgTimingProps
+
+/-! ## hot upgrade: writes issued while a connection is being handed over -/
+section HandoverQueueProps
+open MosnVerif.Model.HandoverQueue MosnVerif.Gen.HandoverQueue
+
+/-- **handover_writes_preserved**: for EVERY sequence of writes the old process issues on a connection that is being
+handed over (any number, far beyond the queue's capacity) and EVERY schedule of the writer and the forwarding loop
+(including any number of writer turns before the loop has started: the window before `transferRead` returned), with
+the enqueue form and the capacity regenerated from `writeDirectly`: no write is given up, and what was forwarded to
+the new process, what is queued and what the writer has not yet written is, in this order, exactly the writer's
+sequence.  Assumption of the `blockingTimeout` form: the forwarding loop starts before the timer fires. -/
+theorem handover_writes_preserved {α : Type} (ws : List α) (sched : List MosnVerif.Model.HandoverQueue.Ev) :
+    (runG ws sched).forwarded ++ (runG ws sched).queue ++ (runG ws sched).pending = ws ∧ (runG ws sched).dropped = [] :=
+  run_inv enqueueMode (by decide) writeBufferCap ws sched { pending := ws } ⟨by simp, rfl⟩
+
+/-- hence: once the writer is through and the queue is empty, the new process received all writes, in order -/
+theorem handover_writes_complete {α : Type} (ws : List α) (sched : List MosnVerif.Model.HandoverQueue.Ev)
+    (hp : (runG ws sched).pending = []) (hq : (runG ws sched).queue = []) : (runG ws sched).forwarded = ws := by
+  have h := (handover_writes_preserved ws sched).1
+  rw [hp, hq] at h
+  simpa using h
+
+/-- non-vacuous: 10 writes in the window (8 fit, the 9th waits), then the loop runs — all arrive -/
+example : (runG (List.range 10) (harnessWindow 10 ++ harnessRest 10)).pending = []
+    ∧ (runG (List.range 10) (harnessWindow 10 ++ harnessRest 10)).queue = []
+    ∧ (runG (List.range 10) (harnessWindow 10 ++ harnessRest 10)).forwarded = List.range 10 := by decide
+example : ((runG (List.range 17) (harnessWindow 17)).queue.length, (runG (List.range 17) (harnessWindow 17)).pending.length) = (8, 9) := by decide
+
+/-- negation witness for the give-up-when-full enqueue: the 9th write of the window is lost -/
+example : (run .dropWhenFull 8 { pending := List.range 9 } (harnessWindow 9 ++ harnessRest 9)).dropped = [8]
+    ∧ (run .dropWhenFull 8 { pending := List.range 9 } (harnessWindow 9 ++ harnessRest 9)).forwarded = List.range 8 := by decide
+
+end HandoverQueueProps
 
 end MosnVerif.Props.C11
